@@ -46,8 +46,16 @@ def k1_verdict_corpus(ctx):
                          data=rnd.choice(['none', 'some', 'all']), hooks=rnd.randint(0, 3),
                          payload=rnd.choice(['none', 'mixed', 'all']), super_data=rnd.random() < 0.2, cross_kind=rnd.random() < 0.3, hook_event=rnd.random() < 0.3,
                          ctx_ty=rnd.choice(['Ctx', 'Ctx', '()', 'u8', 'crate::Ctx', '(u8, u16)']),
-                         pl_ty=rnd.choice(['P', 'P', 'C', '()', "&'static str", 'u8']))
+                         pl_ty=rnd.choice(['P', 'P', 'C', '()', "&'static str", 'u8']),
+                         data_tys=rnd.choice([None, None, ['D0', "&'static str", '()', "Cow<'static, str>", 'Vec<u8>', 'Session<\'static, u8>']]))
         cases.append(('wf', smgen.gen_wellformed(rnd, sh, idx=-1)))
+    # a leaf literally called `state` (the keyword of superstate blocks) in a states list written without commas
+    cases.append(('wf', [('name', 'M'), ('initial', 'first'), ('_nocomma', True),
+                         ('states', [('leaf', 'first', None), ('leaf', 'state', None), ('leaf', 'last', 'D0')]),
+                         ('events', [('go', [('transition', [('from', ['first']), ('to', 'last')])])])]))
+    cases.append(('wf', [('name', 'M'), ('initial', 'first'), ('_nocomma', True),
+                         ('states', [('leaf', 'first', None), ('leaf', 'state', None), ('super', 'G', None, [('leaf', 'superstate', None), ('leaf', 'initial', None)])]),
+                         ('events', [('go', [('transition', [('from', ['first', 'state']), ('to', 'G')])])])]))
     base = [d for (_, d) in cases]
     nm = 40 if ctx.tier == 'quick' else 400
     for d in rnd.sample(base, min(nm, len(base))):
